@@ -2,10 +2,9 @@
    Responses: proved for every accepted response, all three framings
    (C11_every_accepted_response_reserialises; for a chunked response the regenerated message is
    the Content-Length-framed equivalent carrying the de-chunked body).
-   Requests: proved for accepted requests whose method is graphic ASCII (methods with other
-   bytes are exercised by the correspondence run only), relative to the per-target premise
-   [uri_ok] about rhymuri (known findings K2, K3) and to the re-serialised lines fitting the
-   limits (the property's own quantifier). *)
+   Requests: proved for every accepted request (any method the parser stores), relative to the
+   per-target premise [uri_ok] about rhymuri (known findings K2, K3) and to the re-serialised
+   lines fitting the limits (the property's own quantifier). *)
 From Coq Require Import String.
 From Http Require Import Model.Bytes Model.Num Model.Headers Model.Request Model.Response
      Spec.HeaderGrammar Spec.RequestGrammar Spec.ResponseGrammar Proofs.RoundTrip Proofs.Reserialise Proofs.DechunkWf.
@@ -14,7 +13,7 @@ Theorem C11_request_reserialise :
   forall (uri : Type) (uri_parse : bytes -> option uri) (uri_show : uri -> bytes)
          cfg x (st : req_state uri) c u,
     req_parse uri uri_parse cfg req_init x = (st, Complete c) -> r_target st = Some u ->
-    uri_ok uri uri_parse uri_show u -> forallb is_graphic (r_method st) = true ->
+    uri_ok uri uri_parse uri_show u ->
     refits uri uri_show cfg (value_of uri st u) ->
     exists g st2,
       generate_request uri uri_show cfg (value_of uri st u) = Some g /\
